@@ -5,6 +5,7 @@ mod findings;
 mod model;
 mod par;
 mod probe;
+mod props_crash;
 mod props_seq;
 mod report;
 mod sqldrv;
@@ -12,6 +13,7 @@ mod sqldrv;
 fn lookup(engine: &str) -> Option<par::WorkerFn> {
     match engine {
         "seq" => Some(engines::seq::worker),
+        "crash" => Some(engines::crash::worker),
         _ => None,
     }
 }
@@ -19,6 +21,9 @@ fn lookup(engine: &str) -> Option<par::WorkerFn> {
 fn check(prop: &str, tier: &str) -> i32 {
     unsafe { std::env::set_var("VERIF_TIER", tier) };
     match prop {
+        "C01" => props_crash::c01(tier),
+        "C02" => props_crash::c02(tier),
+        "C08" => props_crash::c08(tier),
         "C03" => props_seq::c03(tier),
         "C04" => props_seq::c04(tier),
         "C07" => props_seq::c07(tier),
@@ -70,6 +75,15 @@ fn main() {
         Some("probe") => probe::run(&args[2..]),
         Some("check") => check(&args[2], args.get(3).map(|s| s.as_str()).unwrap_or("quick")),
         Some("replay") => replay(&args[2]),
+        Some("run-case") => {
+            // run-case <engine> <params.json> <hist as JSON list>
+            let f = lookup(&args[2]).expect("engine");
+            let params: serde_json::Value = serde_json::from_str(&std::fs::read_to_string(&args[3]).unwrap()).unwrap();
+            let hist: serde_json::Value = serde_json::from_str(&args[4]).unwrap();
+            let r = f(&params, &serde_json::json!({"hist": hist}));
+            println!("status={} findings={} reproduced={}\n{}\ncounters={}", r["status"], r["findings"], r["reproduced"], r["detail"].as_str().unwrap_or(""), r["counters"]);
+            0
+        }
         _ => {
             eprintln!("usage: harness check <Cxx> <quick|thorough> | replay <file> | probe <script>");
             2
